@@ -39,6 +39,10 @@ macro_rules! run_pool {
         let pool = Arc::new($new_pool(tx));
         let disp: Vec<Vec<Vec<u8>>> = arr(&v["dispatchers"]).iter().map(|d| arr(d).iter().map(blob).collect()).collect();
         let gap_us = v["gap_us"].as_u64().unwrap_or(0);
+        // stress runs: every dispatcher hands its frames over `rounds` times, without recording the calls (the recorder's lock would keep
+        // the dispatchers apart)
+        let rounds = v["rounds"].as_u64().unwrap_or(1) as usize;
+        let record_calls = v["record"].as_bool().unwrap_or(true);
         let during = v["life"].as_str() == Some("during");
         let shutdown_at_us = v["shutdown_at_us"].as_u64().unwrap_or(0);
         let outcomes: Vec<Vec<&'static str>> = std::thread::scope(|s| {
@@ -57,16 +61,20 @@ macro_rules! run_pool {
                 .map(|frames| {
                     let pool = Arc::clone(&pool);
                     s.spawn(move || {
-                        let last = frames.len();
-                        frames
-                            .iter()
+                        let last = frames.len() * rounds;
+                        (0..rounds)
+                            .flat_map(|_| frames.iter())
                             .enumerate()
                             .map(|(fi, f)| {
                                 let t = hooks::tag(f);
-                                hooks::record(1, t);
+                                if record_calls {
+                                    hooks::record(1, t);
+                                }
                                 let r = pool.dispatch(f.clone());
                                 let q = matches!(r, DispatchResult::Queued);
-                                hooks::record(if q { 2 } else { 3 }, t);
+                                if record_calls {
+                                    hooks::record(if q { 2 } else { 3 }, t);
+                                }
                                 if gap_us > 0 && fi + 1 < last {
                                     std::thread::sleep(Duration::from_micros(gap_us));
                                 }
